@@ -177,6 +177,13 @@ def scenarios():
     for by in (5, 60, -30, -59):
         for oc in (["ok"], ["err"], ["5xx", "ok"]):
             out.append((mkcfg(expired_by=by), oc))
+    # a token endpoint whose success response says nothing about the lifetime: the new token has no expiry of its own (it is not the
+    # old token's), so it does not test as expired and nobody refreshes a second time
+    for cfg in (mkcfg(resp_no_expiry=True), mkcfg(resp_no_expiry=True, cc=True, has_rt=False)):
+        for oc in (["ok"], ["rot"], ["err", "ok"]):
+            if cfg["cc"] and not cfg["has_rt"] and "rot" in oc:
+                continue
+            out.append((cfg, oc))
     out.append((mkcfg(init_expired=False, valid_for=120), []))
     out.append((mkcfg(init_expired=False), []))
     out.append((mkcfg(has_token=False), []))
